@@ -118,6 +118,15 @@ func (p *Prog) VerifyFunc(fi *FuncInfo, fc *FuncContract) (res *FuncResult) {
 		}
 		s.ghost[g.Name] = v
 	}
+	// package axioms (trusted)
+	for _, ax := range p.Contracts.Axioms {
+		if ax.PkgPath != fi.Pkg.PkgPath {
+			continue
+		}
+		env := x.newSpecEnv(s, s, fi.Pkg.PkgPath)
+		s.Assume(env.evalBool(ax.Clause.Expr))
+		x.assumeNote("axiom " + ax.Clause.Label + ": " + ax.Clause.Src)
+	}
 	// preconditions
 	for _, cl := range fc.Requires {
 		env := x.newSpecEnv(s, s, fi.Pkg.PkgPath)
